@@ -644,8 +644,7 @@ theorem getProperty_inherit (h : MHeap) (hp : ProtoOK h) (a : Nat) (o : MObj) (n
       match o.proto with
       | none => none
       | some pa => getProperty h (fuel h) (some pa) n := by
-  simp only [getProperty_unfold h hp a o n ho, hl]
-  cases o.proto <;> rfl
+  rw [getProperty_unfold h hp a o n ho, hl]
 
 /-- the two "create a new own property" endings of [[Put]] agree (object level) -/
 theorem putNew_refines (o : MObj) (n : Name) (v : Val) (ho : WFObj o) (hl : alookup n o.props = none) :
